@@ -1173,6 +1173,12 @@ Proof.
         destruct (IH _ _ _ _ Hnd' Hs) as [H1 H2]. split; [apply ss_take; exact H1|exact H2].
 Qed.
 
+Lemma subseq_mid2 : forall (T : Type) (a b : list T) x y, subseq (a ++ x :: b) (a ++ x :: y :: b).
+Proof.
+  intros T a b x y. apply subseq_app; [apply subseq_refl|]. apply ss_take. apply ss_skip.
+  apply subseq_refl.
+Qed.
+
 Lemma rest_suffix : forall h C cur rest,
   path h 0 (Some head) C -> path h 0 cur rest ->
   (forall a, cur = Some a -> In a C) -> exists pre, C = pre ++ rest.
@@ -1249,8 +1255,8 @@ Proof.
     change (pred_of h0 e (ls 0)) with (prev 0) in Hc.
     rewrite Cj_S, (linked_split h0 ls e n 0). change (pred_of h0 e (ls 0)) with (prev 0).
     set (I0 := initd head (before h0 e (ls 0))) in *. set (B0 := after h0 e (ls 0)) in *.
-    destruct (in_dec Nat.eq_dec (prev 0) rest) as [Hin|Hnin].
-    + apply in_split in Hin. destruct Hin as (r1 & r2 & ->).
+    destruct (@in_dec addr Nat.eq_dec (prev 0) rest) as [Hin|Hnin].
+    + apply (@in_split addr) in Hin. destruct Hin as (r1 & r2 & ->).
       assert (E : (pre ++ r1) ++ prev 0 :: r2 = I0 ++ prev 0 :: B0)
         by (rewrite <- app_assoc; exact (eq_trans (eq_sym Epre) Hc)).
       assert (Hnd' : NoDup ((pre ++ r1) ++ prev 0 :: r2)) by (rewrite E, <- Hc; exact Hnd).
@@ -1263,21 +1269,14 @@ Proof.
         -- apply Hi.
         -- destruct Hi as (_ & _ & _ & _ & Hl). rewrite E2. apply Hl. reflexivity.
       * eapply subseq_trans; [|exact H1]. apply subseq_app; [apply subseq_refl|].
-        replace (r1 ++ prev 0 :: r2) with ((r1 ++ [prev 0]) ++ r2) by (rewrite <- app_assoc; reflexivity).
-        replace (r1 ++ prev 0 :: n :: r2) with ((r1 ++ [prev 0]) ++ n :: r2) by (rewrite <- app_assoc; reflexivity).
-        apply subseq_mid.
+        apply subseq_mid2.
       * rewrite Hc in H2, Hnd.
-        replace (r_done r ++ r1 ++ prev 0 :: r2) with ((r_done r ++ r1) ++ prev 0 :: r2) in H2
-          by (rewrite <- app_assoc; reflexivity).
+        rewrite (app_assoc (r_done r) r1 (prev 0 :: r2)) in H2.
         destruct (subseq_split_nodup _ _ _ _ _ Hnd H2) as [S1 S2].
-        replace (r_done r ++ r1 ++ prev 0 :: n :: r2) with ((r_done r ++ r1) ++ prev 0 :: n :: r2)
-          by (rewrite <- app_assoc; reflexivity).
+        rewrite (app_assoc (r_done r) r1 (prev 0 :: n :: r2)).
         apply subseq_app; [exact S1|]. apply ss_take. apply ss_take. exact S2.
     + exists rest. split; [apply seg_store_notin; assumption|]. split; [exact H1|].
-      eapply subseq_trans; [|exact H2]. rewrite Hc.
-      replace (I0 ++ prev 0 :: B0) with ((I0 ++ [prev 0]) ++ B0) by (rewrite <- app_assoc; reflexivity).
-      replace (I0 ++ prev 0 :: n :: B0) with ((I0 ++ [prev 0]) ++ n :: B0) by (rewrite <- app_assoc; reflexivity).
-      apply subseq_mid.
+      eapply subseq_trans; [|exact H2]. rewrite Hc. apply subseq_mid2.
   - destruct HB as (rest & Hp & H1 & H2). exists rest.
     split; [apply seg_store_other; [discriminate|exact Hp]|]. split; assumption.
 Qed.
